@@ -159,6 +159,17 @@ def check (prop : String) (inp out : List String) : Verdict :=
       { agree := m == impl, model := if m then "1" else "0",
         specFail := failing [("compat_iff", impl == (ma == Consts.versionMajor && mi == Consts.versionMinor))] }
     | _, _, _, _ => .bad "compat tokens"
+  | ["id", instTok] =>
+    -- the daemon's identity as a client decodes it from the handshake reply
+    match parsePacket? .inst instTok, out with
+    | some (.inst inst), [r] =>
+      let m := match decode .inst ((sendPacket (.inst inst)).drop 10) with
+        | .ok (.inst i) => some i
+        | _ => none
+      let impl := match parsePacket? .inst r with | some (.inst i) => some i | _ => none
+      { agree := m == impl, model := if m.isSome then "decodes" else "rejected",
+        specFail := failing [("client_decodes_daemon_identity", impl == some inst)] }
+    | _, _ => .bad "id tokens"
   | "sess" :: instTok :: evToks =>
     match parsePacket? .inst instTok, evToks.mapM parseEv?, out.mapM parseEvOut? with
     | some (.inst inst), some es, some outs =>
